@@ -290,6 +290,8 @@ class Session:
             return out, control
 
         if self.be.close_on and self.be.close_on(text if text else ';', client):
+            if self.be.close_delay:
+                time.sleep(self.be.close_delay)
             return finish('close', 'close')
         if self.be.garbage:
             out.append(b'\x00\xff\xff\xff\xf0garbage')
@@ -506,6 +508,7 @@ class Backend(threading.Thread):
         self.fault_kind = 'up'
         self.scripts = []           # scripted replies: each a list of segments [(bytes, [chunk offsets])]
         self.stall = False          # stop reading from established connections (TCP buffers fill up)
+        self.close_delay = 0.0      # seconds between receiving the statement a connection dies under and closing it
         self.read_delay = 0.0       # seconds slept before every message read
         self.always_error = False   # every statement is answered with an ErrorResponse
         self.garbage = False        # every statement is answered with bytes that are not a PostgreSQL message
@@ -522,6 +525,7 @@ class Backend(threading.Thread):
         self.close_on = None
         self.mode = 'ok'
         self.stall = False
+        self.close_delay = 0.0
         self.read_delay = 0.0
         self.always_error = False
         self.garbage = False
@@ -557,6 +561,7 @@ class Backend(threading.Thread):
             self.close_on = lambda text, client: text.strip() == ';' or text.strip() == ''
         elif kind == 'dies_under_statement':
             self.close_on = lambda text, client: bool(client)
+            self.close_delay = 0.3
 
     def kill_connections(self):
         with self.lock:
